@@ -211,7 +211,19 @@ def gen_sumproduct(rng, sr):
     names = ["a", "b", "c", "d", "e"][: rng.choice([2, 3, 3, 4, 4, 5])]
     ctx = OrderedDict((n, rng.choice([1, 2, 2, 3])) for n in names)
 
+    pool = []
+
     def leaf():
+        # the very same leaf object may occur several times (funsors are cons-hashed: a repeated factor is ONE
+        # object, which matters to rules that key dicts/counters by term)
+        if pool and rng.random() < 0.3:
+            return rng.choice(pool)
+        r = fresh_leaf()
+        if r[0][0] == "tensor":
+            pool.append(r)
+        return r
+
+    def fresh_leaf():
         k = rng.choice([0, 1, 1, 2, 2, 3])
         ns = rng.sample(names, min(k, len(names)))
         if not ns and rng.random() < 0.5:
@@ -253,7 +265,8 @@ def gen_sumproduct(rng, sr):
 
 
 MODES = ["eager", "lazy", "reflect>eager", "lazy>eager", "reflect>normalize", "reflect>lazy",
-         "reflect>optimizer", "lazy>optimizer", "reflect>sequential", "reflect>moment_matching"]
+         "reflect>optimizer", "lazy>optimizer", "reflect>sequential", "reflect>moment_matching",
+         "normalize>eager", "normalize>sequential"]
 
 _INTERP = {"eager": FI.eager, "lazy": FI.lazy, "reflect": FI.reflect, "normalize": FI.normalize,
            "optimizer": None,
@@ -284,11 +297,19 @@ def recipe_to_json(r):
     return r
 
 
-def recipe_from_json(j):
+def recipe_from_json(j, _arrays=None):
+    """Inverse of recipe_to_json.  Arrays with equal content become ONE ndarray object, so that a leaf that
+    occurred several times in the original program is again one cons-hashed Tensor (object identity of
+    repeated factors matters to some rules)."""
+    if _arrays is None:
+        _arrays = {}
     if isinstance(j, dict):
-        return np.array(j["nd"], dtype=j["dtype"]).reshape(j["shape"])
+        key = (j["dtype"], tuple(j["shape"]), json.dumps(j["nd"]))
+        if key not in _arrays:
+            _arrays[key] = np.array(j["nd"], dtype=j["dtype"]).reshape(j["shape"])
+        return _arrays[key]
     if isinstance(j, list):
-        return tuple(recipe_from_json(x) for x in j)
+        return tuple(recipe_from_json(x, _arrays) for x in j)
     return j
 
 
@@ -644,7 +665,7 @@ class Checker:
         try:
             c.wire_refl = wire_of(refl)
             c.wire_res = ser.to_wire(f.result)
-        except (ser.Unsupported, AttributeError) as e:   # AttributeError: fv/ser.py reads Align.names (no such attribute)
+        except ser.Unsupported as e:
             ctx.count("lean-beyond-model->python-oracle")
             self.oracle(f, refl, why=str(e))
             return
@@ -856,54 +877,6 @@ def shared_binder_stream(ctx, rec):
                      "r = apply_optimizer(e)\nprint(r)\nFAILS = float(r.data) != 36.0\n"))
 
 
-def delta_logdensity_stream(ctx, rec):
-    """Dedicated stream for the finding KF-delta-logdensity-inputs: Delta.__init__ omits the inputs of
-    log_density, so the lazy Reduce over the delta's variable declares no input `i` while the eager rule's
-    result depends on it (first firing whose result has an input the reflected term lacks)."""
-    from funsor.domains import Bint
-    from funsor.delta import Delta
-
-    def prog():
-        logd = Tensor(np.array([-2.0, 1.0, -2.0]), OrderedDict(i=Bint[3]))
-        d = Delta("x", Tensor(np.array(0.0)), logd)
-        return d.reduce(ops.logaddexp, "x")
-    rec.firings = []
-    st, val = rec.run("kf-delta", prog)
-    firings, rec.firings = rec.firings, []
-    hit = None
-    for fr in firings:
-        if not isinstance(fr.result, Funsor):
-            continue
-        try:
-            with reflect:
-                refl = fr.reflected()
-        except (AssertionError, ValueError, TypeError, KeyError):
-            continue
-        extra = sorted(set(fr.result.inputs) - set(refl.inputs))
-        if extra:
-            hit = (fr, refl, extra)
-            break
-    fid = "KF-delta-logdensity-inputs"
-    if hit is None:
-        if ctx.is_open(fid):
-            ctx.known(fid, reproduced=False)
-        return
-    fr, refl, extra = hit
-    what = (f"{fr.interp}:{fr.rule}: reflected {tstr(refl)[:160]} declares inputs {list(refl.inputs)}, result "
-            f"{tstr(fr.result)[:100]} has extra inputs {extra} (Delta.__init__ omits log_density.inputs)")
-    ctx.extra["kf_delta_logdensity"] = what
-    if ctx.known(fid, reproduced=True, what=what):
-        return
-    ctx.fail("input", "C02.rewrite-introduces-input", witness={"rule": fr.rule, "reflected": tstr(refl)[:400],
-                                                               "result": tstr(fr.result)[:400], "extra_inputs": extra},
-             expected=f"inputs ⊆ {list(refl.inputs)}", got=f"extra inputs {extra}",
-             python=("import numpy as np\nfrom collections import OrderedDict\nimport funsor, funsor.ops as ops\n"
-                     "from funsor.domains import Bint\nfrom funsor.tensor import Tensor\nfrom funsor.delta import Delta\n"
-                     "logd = Tensor(np.array([-2., 1., -2.]), OrderedDict(i=Bint[3]))\n"
-                     "d = Delta('x', Tensor(np.array(0.)), logd)\nr = d.reduce(ops.logaddexp, 'x')\n"
-                     "print(dict(d.inputs), r)\nFAILS = 'i' in r.inputs and 'i' not in d.inputs\n"))
-
-
 # ---------------------------------------------------------------------------------------------
 # correspondence
 # ---------------------------------------------------------------------------------------------
@@ -930,8 +903,10 @@ def battery(ctx, chk, n_recipes, n_sp, focus=None):
         sr = rng.choice(list(SEMIRINGS))
         recipe = gen_sumproduct(rng, sr)
         ctx.count(f"semiring:{sr}")
-        for mode in rng.sample(["reflect>eager", "reflect>normalize", "reflect>optimizer", "lazy>optimizer",
-                                "lazy>eager", "reflect>lazy", "eager", "reflect>sequential"], 3):
+        # "normalize>eager": a normalize-built (flattened, multi-operand) Contraction reinterpreted under eager
+        for mode in ["normalize>eager"] + rng.sample(
+                ["reflect>eager", "reflect>normalize", "reflect>optimizer", "lazy>optimizer",
+                 "lazy>eager", "reflect>lazy", "eager", "reflect>sequential", "normalize>sequential"], 2):
             st, _ = chk.add_program(recipe, mode)
             if st == "declined" and mode.startswith("reflect>"):
                 chk.add_program(recipe, "lazy>" + mode.split(">")[1])
@@ -970,11 +945,10 @@ def correspond(ctx):
     try:
         chk = Checker(ctx, rec)
         if ctx.tier == "quick":
-            battery(ctx, chk, 1000, 700)
+            battery(ctx, chk, 800, 550)
         else:
             battery(ctx, chk, 6000, 4000)
         shared_binder_stream(ctx, rec)
-        delta_logdensity_stream(ctx, rec)
         report(ctx, chk)
     finally:
         rec.uninstall()
